@@ -718,6 +718,9 @@ func init() {
 					if d := time.Since(famStart); d > 8*time.Second {
 						ctx.Stats.Note(fmt.Sprintf("cost of the deterministic part: %s (%s) took %.0f s", f.name, pipeline, d.Seconds()))
 					}
+					if r.Slope >= 1.3 {
+						ctx.Stats.Note(fmt.Sprintf("timing slope above 1.3: %s (%s) %.2f (%s), CPU ms %v for documents of %v bytes", f.name, pipeline, r.Slope, r.Verdict, r.Millis, r.DocBytes))
+					}
 					ctx.Stats.Count("timing:"+r.Verdict, 1)
 					ctx.Stats.Bulk(int64(len(r.Millis)), 1)
 					ctx.Stats.AddSample(r)
